@@ -43,17 +43,17 @@ theorem hookF_pure (hk : HK) (f : Cfg → Cfg) (x : FCfg) (h : ArmOk a0 x) :
     ⟨hhk, haf, hnf, hxa, y, hy, h1, h2, h3, h4⟩ | ⟨x', hl, hf, hr, hao, han, hcase⟩
   · right
     rw [hy]
-    exact ⟨hhk, rfl, Or.inl ⟨h1, haf⟩, h2, h3, hnf, hxa, h4⟩
+    exact ⟨hhk, rfl, Or.inl ⟨h1, haf⟩, h2, h3, hnf, hxa, h4.1⟩
   · rcases hcase with ⟨hhk, haf, hnf, hxa, hx'a, hcase⟩ | hcase
-    · rcases hcase with ⟨y, e, hb, _⟩ | ⟨y, y', hb, hy, hu1, hu2, hu3, hfy⟩
+    · rcases hcase with ⟨y, _, e, hb, _⟩ | ⟨y, y', hb, hy, hu1, hu2, hu3, hfy⟩
       · simp [ok] at hb
       · right
         have hyx : y = x'.updC f := by simpa [ok] using hb.symm
         rw [hy]
-        refine ⟨hhk, rfl, Or.inr ⟨?_, haf⟩, hfy, hu3, hnf, hxa, ?_⟩
+        refine ⟨hhk, rfl, Or.inr ⟨?_, haf⟩, hfy.1, hu3, hnf, hxa, ?_⟩
         · show y'.l = _; rw [hu1, hyx, updC_l, hl]
         · show y'.rep = _; rw [hu2, hyx, updC_rep, hr]
-    · rcases hcase with ⟨y, e, hb, _⟩ | ⟨y, y', e, hb, hy, _, hu, hfy, hcalled⟩
+    · rcases hcase with ⟨y, _, e, hb, _⟩ | ⟨y, y', e, hb, hy, _, hu, hfy, hcalled⟩
       · simp [ok] at hb
       · left
         have hyx : y = x'.updC f := by simpa [ok] using hb.symm
@@ -66,8 +66,8 @@ theorem hookF_pure (hk : HK) (f : Cfg → Cfg) (x : FCfg) (h : ArmOk a0 x) :
           have h5 : y'.fired = true := hfy'
           rw [hfy, hyx] at h5
           show y'.arm = none; rw [hu.2.1, hyx]; exact hao.2 h5
-        · intro hn; show y'.arm = none; rw [hu.2.1, hyx]; exact han hn
-        · show y'.rep = _; rw [hu.2.2, hyx, updC_rep, hr]
+        · intro hn; show y'.arm = none; rw [hu.2.1, hyx]; exact han.1 hn
+        · show y'.rep = _; rw [hu.2.2.1, hyx, updC_rep, hr]
 
 /-- `close()` on a process that is not closed: closed, or the fault fired before `super().on_close()` and nothing happened -/
 theorem closeF_spec (x : FCfg) (h : ArmOk a0 x) (hac : afterClose a0 = false) (hc : x.l.c.closed = false) :
@@ -108,7 +108,7 @@ theorem terminatedF_spec (x : FCfg) (h : ArmOk a0 x) (hac : afterClose a0 = fals
         rw [updC_l, upd_c, releasePause_closed, hl]; exact hc
       have hsp : _ := closeF_spec (x'.updC releasePause) (hao.updC _) hac hc''
       rw [show closeF (x'.updC releasePause) = termBaseF x' from rfl] at hsp
-      rcases hcase with ⟨y, e, hb, hy⟩ | ⟨y, y', e, hb, hy, _, hu, hfy, hcalled⟩
+      rcases hcase with ⟨y, yy, e, hb, hy, huu, hfyy⟩ | ⟨y, y', e, hb, hy, _, hu, hfy, hcalled⟩
       · -- the base implementation raised: the fault fired in `on_close`
         rcases hsp with ⟨k1, _⟩ | ⟨k1, k2, k3, k4, k5, k6, k7⟩
         · rw [show termBaseF x' = (y, some e) from hb] at k1; cases k1
@@ -117,10 +117,10 @@ theorem terminatedF_spec (x : FCfg) (h : ArmOk a0 x) (hac : afterClose a0 = fals
           have h1 : (termBaseF x').1 = y := by rw [show termBaseF x' = (y, some e) from hb]
           rw [k1] at h2; cases h2
           rw [hy]
-          refine ⟨rfl, Or.inr ?_, ?_, ?_, ?_, fun hn => k6 (han hn), Or.inr k7⟩
-          · show y.l = _; rw [← h1, k2, updC_l, hl]
-          · show y.fired = true; rw [← h1]; exact k3
-          · show y.arm = none; rw [← h1]; exact k4
+          refine ⟨rfl, Or.inr ?_, ?_, ?_, ?_, fun hn => k6 (han.1 hn), Or.inr k7⟩
+          · show yy.l = _; rw [huu.1, ← h1, k2, updC_l, hl]
+          · show yy.fired = true; rw [hfyy, ← h1]; exact k3
+          · show yy.arm = none; rw [huu.2.1, ← h1]; exact k4
           · rw [← hf]; exact k5
       · rcases hsp with ⟨k1, k2, k3, k4, k5, k6⟩ | ⟨k1, _⟩
         · left
@@ -133,7 +133,7 @@ theorem terminatedF_spec (x : FCfg) (h : ArmOk a0 x) (hac : afterClose a0 = fals
           · have h4 : ArmOk a0 y := h1 ▸ k4
             exact ⟨fun b hb' => h4.1 b (by rw [← hb']; exact hu.2.1.symm), fun hfy' => by
               show y'.arm = none; rw [hu.2.1]; exact h4.2 (by rw [← hfy]; exact hfy')⟩
-          · intro hn; show y'.arm = none; rw [hu.2.1, ← h1]; exact k6 (han hn)
+          · intro hn; show y'.arm = none; rw [hu.2.1, ← h1]; exact k6 (han.1 hn)
         · rw [show termBaseF x' = (y, none) from hb] at k1; cases k1
 
 variable {N : Hook → FCfg → FCfg}
@@ -177,17 +177,17 @@ theorem enteredHooksF_spec (hN : NK a0 N) (x : FCfg) (s : SObj) (h : ArmOk a0 x)
     · obtain ⟨k0, k1, k2, k3⟩ := enteredBaseF_spec hN s x' hao (by rw [hl]; exact htr)
       rw [hl] at k1
       rcases hcase with ⟨hhk, _, hnf, _, hx'a, hcase⟩ | hcase
-      · rcases hcase with ⟨y, e, hb, _⟩ | ⟨y, y', hb, hy, hu1, hu2, hu3, hfy⟩
+      · rcases hcase with ⟨y, _, e, hb, _⟩ | ⟨y, y', hb, hy, hu1, hu2, hu3, hfy⟩
         · rw [hb] at k0; cases k0
         · right; left
           have hy1 : (enteredBaseF N s x').1 = y := by rw [hb]
           rw [hy1] at k1
           rw [hy]
-          refine ⟨rfl, Or.inr ⟨?_, ?_, ?_⟩, hfy, hu3, hmk hhk⟩
+          refine ⟨rfl, Or.inr ⟨?_, ?_, ?_⟩, hfy.1, hu3, hmk hhk⟩
           · show Same2 _ y'.l.c; rw [hu1]; exact k1.1
           · show y'.l.c.st = _; rw [hu1]; exact k1.2.1
           · show y'.l.trans = _; rw [hu1]; exact k1.2.2
-      · rcases hcase with ⟨y, e, hb, _⟩ | ⟨y, y', e, hb, hy, he, hu, hfy, _⟩
+      · rcases hcase with ⟨y, _, e, hb, _⟩ | ⟨y, y', e, hb, hy, he, hu, hfy, _⟩
         · rw [hb] at k0; cases k0
         · have hy1 : (enteredBaseF N s x').1 = y := by rw [hb]
           rw [hy1] at k1 k2 k3
@@ -203,6 +203,18 @@ theorem enteredHooksF_spec (hN : NK a0 N) (x : FCfg) (s : SObj) (h : ArmOk a0 x)
 
 theorem excepted_terminal (e : Exc) : terminal (SObj.excepted e).label = true := by simp [SObj.label, terminal, allowed]
 
+theorem exitState_st (c : Cfg) : (exitState c).st = c.st := by
+  unfold exitState; split
+  · dsimp only; split <;> rfl
+  · rfl
+
+/-- the late exit of a state that is still entered touches nothing the lifecycle invariant looks at -/
+theorem lateExitF_spec (x : FCfg) : Same2 x.l.c (lateExitF x).l.c ∧ (lateExitF x).l.c.st = x.l.c.st ∧
+    (lateExitF x).l.trans = x.l.trans ∧ (lateExitF x).arm = x.arm ∧ (lateExitF x).fired = x.fired := by
+  unfold lateExitF; split
+  · exact ⟨exitState_same2 _, exitState_st _, rfl, rfl, rfl⟩
+  · exact ⟨Same2.rfl' _, rfl, rfl, rfl, rfl⟩
+
 /-- `transition_failed` → `transition_to(EXCEPTED)` on a process that is not closed: EXCEPTED with `e`, everything agreeing — unless
 the fault is still armed and fires in `on_terminated` / `on_close` of this failing transition (then it propagates) -/
 theorem forceExceptedF_spec (hN : NK a0 N) (x : FCfg) (e : Exc) (h : ArmOk a0 x) (hac : afterClose a0 = false)
@@ -215,17 +227,23 @@ theorem forceExceptedF_spec (hN : NK a0 N) (x : FCfg) (e : Exc) (h : ArmOk a0 x)
   unfold forceExceptedF
   simp only [hc, Bool.false_eq_true, if_false]
   -- the configurations on the way
-  generalize hx2 : ((x.updL fun l => { l with trans := some Label.excepted }).updC fun c => setFutExc c e) = x2
-  have h2 : ArmOk a0 x2 := by rw [← hx2]; exact (h.updL _).updC _
-  have htr2 : x2.l.trans.isSome = true := by rw [← hx2]; rfl
-  obtain ⟨f1, f2, f3, f4, f5⟩ := setFutExc_fields x.l.c e
-  have hc2 : x2.l.c = setFutExc x.l.c e := by rw [← hx2]; rfl
+  obtain ⟨⟨_, _, _, w4, w5, _⟩, _, w7, w8, w9⟩ := lateExitF_spec (x.updL fun l => { l with trans := some Label.excepted })
+  generalize hx1 : lateExitF (x.updL fun l => { l with trans := some Label.excepted }) = x1 at w4 w5 w7 w8 w9
+  have h1 : ArmOk a0 x1 := by unfold ArmOk; rw [w8, w9]; exact h
+  have hc : x1.l.c.closed = false := by rw [w4]; exact hc
+  have hcl : x1.l.c.cleanups = 0 := by rw [w5]; exact hcl
+  have hf1 : x1.fired = x.fired := w9
+  generalize hx2 : (x1.updC fun c => setFutExc c e) = x2
+  have h2 : ArmOk a0 x2 := by rw [← hx2]; exact h1.updC _
+  have htr2 : x2.l.trans.isSome = true := by rw [← hx2, updC_l, upd_trans, w7]; rfl
+  obtain ⟨f1, f2, f3, f4, f5⟩ := setFutExc_fields x1.l.c e
+  have hc2 : x2.l.c = setFutExc x1.l.c e := by rw [← hx2]; rfl
   obtain ⟨⟨t1, t2, t3⟩, t4, t5⟩ := hN.tq .entering x2 htr2 h2
   generalize hx3 : N Hook.entering x2 = x3 at t1 t2 t3 t4 t5
   obtain ⟨_, _, s3, s4, s5, _⟩ := t1
-  generalize hx4 : (x3.updC fun c => setState c (SObj.excepted e)) = x4
-  have h4 : ArmOk a0 x4 := by rw [← hx4]; exact t4.updC _
-  have htr4 : x4.l.trans.isSome = true := by rw [← hx4, updC_l, upd_trans, t3]; exact htr2
+  generalize hx4 : ({ x3.updC fun c => setState c (SObj.excepted e) with inState := true } : FCfg) = x4
+  have h4 : ArmOk a0 x4 := by rw [← hx4]; exact t4
+  have htr4 : x4.l.trans.isSome = true := by rw [← hx4]; show (x3.l.upd _).trans.isSome = true; rw [upd_trans, t3]; exact htr2
   have hc4 : x4.l.c = setState x3.l.c (.excepted e) := by rw [← hx4]; rfl
   rcases enteredHooksF_spec hN x4 (.excepted e) h4 htr4 with ⟨e1, ⟨e2, e3, e4⟩, e5, e6⟩ | ⟨e1, _⟩ | ⟨e1, _⟩
   · -- the entered callbacks of EXCEPTED cannot raise
@@ -241,7 +259,7 @@ theorem forceExceptedF_spec (hN : NK a0 N) (x : FCfg) (e : Exc) (h : ArmOk a0 x)
     have hyfut : y.l.c.fut = .exc e := by rw [u3, g2, hc4]; show x3.l.c.fut = _; rw [s3, hc2, f1]
     have hycl : y.l.c.cleanups = 0 := by rw [u5, g4, hc4]; show x3.l.c.cleanups = 0; rw [s5, hc2, f3]; exact hcl
     have hyf : mainHK a0.hk = true → y.fired = x.fired := fun hm => by
-      rw [e6 hm, ← hx4, updC_fired, t5 hm, ← hx2]; rfl
+      rw [e6 hm, ← hx4]; show x3.fired = x.fired; rw [t5 hm, ← hx2]; exact hf1
     rcases terminatedF_spec y e5 hac hyc with ⟨k1, k2, k3, k4, _⟩ | ⟨k1, k2, k3, k4, k5, _, k7⟩
     · obtain ⟨o1, o2, o3, o4, _⟩ := onTerminated_fields y.l.c hyc
       have hst : (terminatedF y).1.l.c.st = .excepted e := by rw [k2, upd_c, o1]; exact hyst
